@@ -1,5 +1,6 @@
 import Rtsp.Model.ClientSm
 import Rtsp.Proofs.ClientSm.Main
+import Rtsp.Proofs.ClientSm.NonNil
 /-
 C12 — the client survives hostile servers: theorems about the client control model
 (Model/ClientSm.lean).  Server behaviour is the input (events); every statement quantifies over all
@@ -260,5 +261,99 @@ theorem close_then_calls_fail (c : Cfg) (es : List Ev) (a : Api) :
   exact ⟨hc, close_idempotent c s hc, after_failure_calls_fail c s a hc⟩
 
 example : Inv (step {} init (.call .describe)) := reachable_inv {} [.call .describe]
+
+/-! ### after a failure the client reports that failure -/
+
+/-- **termination_has_error**: whatever the server does and whatever the caller calls, when the run
+loop has exited the error latched as closeError is an error (never nil) … -/
+theorem termination_has_error (c : Cfg) (es : List Ev) :
+    (run c init es).closed = true → (run c init es).closeRes ≠ none :=
+  (run_good c es init good_init).1
+
+/-- … so every API call made after the client has terminated returns an error, at once. -/
+theorem calls_after_termination_report_error (c : Cfg) (es : List Ev) (a : Api)
+    (h : (run c init es).closed = true) :
+    ∃ e, step c (run c init es) (.call a) = emit (run c init es) (.ret a (some e)) := by
+  have hne := termination_has_error c es h
+  cases hr : (run c init es).closeRes with
+  | none => exact absurd hr hne
+  | some e => exact ⟨e, by rw [after_failure_calls_fail c _ a h, hr]⟩
+
+/-- while the client runs, nothing is latched between two blocking points: `mustClose` set means the
+loop is already leaving -/
+theorem running_state_clean (c : Cfg) (es : List Ev) (h : (run c init es).closed = false) :
+    (run c init es).mustClose = false ∧ (run c init es).ctxDone = false := by
+  have hg := (run_good c es init good_init).2 h
+  exact ⟨hg.1, hg.2.1⟩
+
+example : (run {} init [.call .describe, .timer]).closed = true ∧
+    (run {} init [.call .describe, .timer]).closeRes = some .timeout := by decide
+
+/-! ### details of `do`: session capture, the 401 retry happens once, redirects are bounded, frames -/
+
+/-- The Session header of an accepted response is captured (unless it is invalid, which is an error
+that does not terminate the client), whatever else the response says. -/
+theorem session_captured (c : Cfg) (s : St) (m : Meth) (tp : Nat) (r : Resp) (k : List Fr)
+    (retK : St → Val → St) (id : Nat) (hs : r.sess = .good id)
+    (hn : (r.status == statusUnauthorized && c.creds && !s.sender) = false) :
+    doTail c s m tp r k retK = retK { s with session := some id } (.resp r) := by
+  have hn' : (r.status == statusUnauthorized && c.creds && !(captureSession s r.sess).sender) = false := by
+    simpa [hs, captureSession] using hn
+  simp only [doTail, hs, captureSession]
+  simp only [hs, captureSession] at hn'
+  simp [hn']
+
+theorem session_invalid_is_not_fatal (c : Cfg) (s : St) (m : Meth) (tp : Nat) (r : Resp) (k : List Fr)
+    (retK : St → Val → St) (hs : r.sess = .bad) :
+    doTail c s m tp r k retK = retK s (.err .sessionInvalid) := by
+  simp [doTail, hs]
+
+/-- **401 retry once**: when credentials were already sent (`sender` is set) a 401 is not retried: the
+response goes back to the caller (which reports ErrClientBadStatusCode); nothing is written. -/
+theorem auth_retry_only_once (c : Cfg) (s : St) (m : Meth) (tp : Nat) (r : Resp) (k : List Fr)
+    (retK : St → Val → St) (hs : s.sender = true) (hb : r.sess ≠ .bad) :
+    doTail c s m tp r k retK = retK (captureSession s r.sess) (.resp r) := by
+  have h1 : (captureSession s r.sess).sender = true := by
+    cases r.sess <;> simpa [captureSession] using hs
+  have hb' : (r.sess == SessK.bad) = false := by
+    cases hr : r.sess <;> simp_all
+  simp [doTail, hb', h1]
+
+/-- … and without credentials a 401 is never retried. -/
+theorem no_credentials_no_retry (c : Cfg) (s : St) (m : Meth) (tp : Nat) (r : Resp) (k : List Fr)
+    (retK : St → Val → St) (hc : c.creds = false) (hb : r.sess ≠ .bad) :
+    doTail c s m tp r k retK = retK (captureSession s r.sess) (.resp r) := by
+  have hb' : (r.sess == SessK.bad) = false := by
+    cases hr : r.sess <;> simp_all
+  simp [doTail, hb', hc]
+
+/-- **redirects are bounded**: after `maxRedirects` (= 10) redirects the next 3xx with a Location is an
+error; nothing is reset, nothing is dialled, nothing is sent. -/
+theorem redirects_bounded (c : Cfg) (s : St) (rd : Nat) (r : Resp) (k : List Fr) (retK : St → Val → St)
+    (h3 : statusMovedPermanently ≤ r.status ∧ r.status ≤ statusUseProxy) (hl : r.loc ≠ .none ∧ r.loc ≠ .multi)
+    (hrd : maxRedirects ≤ rd) :
+    describeResp c s rd r k retK = retK s (.err .other) := by
+  have hne : r.status ≠ statusOK := by
+    have := h3.1
+    simp only [statusMovedPermanently, statusOK] at *
+    omega
+  have hcond : (decide (statusMovedPermanently ≤ r.status) && decide (r.status ≤ statusUseProxy) && r.loc != LocK.none && r.loc != LocK.multi) = true := by
+    simp [h3.1, h3.2, hl.1, hl.2]
+  simp [describeResp, hne, hcond, hrd]
+
+/-- an interleaved frame while frames are not allowed (outside PLAY / RECORD over TCP) terminates the
+client with ErrClientUnexpectedFrame; while they are allowed it is consumed without any effect on the
+control state -/
+theorem frame_outside_play_is_fatal (c : Cfg) (s : St) (ch : Nat) (hc : s.closed = false)
+    (hs : s.stack = []) (ha : s.allow = false) :
+    step c s (.frame ch) = runExit { s with reader := false } (some .unexpectedFrame) := by
+  simp [step, hc, hs, ha]
+
+theorem frame_in_play_is_consumed (c : Cfg) (s : St) (ch : Nat) (hb : Blocked s) (ha : s.allow = true) :
+    step c s (.frame ch) = s := by
+  unfold step
+  split
+  · rfl
+  · rcases hb with h | ⟨m, n, tp, k, h⟩ <;> simp [h, ha]
 
 end Rtsp.ClientSm.C12
